@@ -63,8 +63,8 @@ def tags_of(p):
         t = ["lit", "str"]
         if "BS" in p["chars"]:
             t.append("escape")
-            if p["chars"][-2:] == ["BS", "BS"] and (len(p["chars"]) < 3 or p["chars"][-3] != "BS"):
-                t.append("escaped-backslash-last")
+            if len(p["chars"]) - len(p["expect"]["chars"]) >= 2:
+                t.append("escape-sequence")
         return t
     return ["lit", "bool"]
 
